@@ -111,22 +111,6 @@ Definition ty_eqb (a b : ty) : bool :=
   | _, _ => false
   end.
 
-Lemma bkind_eqb_eq a b : bkind_eqb a b = true <-> a = b.
-Proof. destruct a, b; simpl; split; congruence. Qed.
-
-Lemma ckind_eqb_eq a b : ckind_eqb a b = true <-> a = b.
-Proof. destruct a, b; simpl; split; congruence. Qed.
-
-Lemma ty_eqb_eq a b : ty_eqb a b = true <-> a = b.
-Proof.
-  destruct a, b; simpl; try (split; congruence);
-    rewrite ?andb_true_iff, ?Nat.eqb_eq, ?bkind_eqb_eq, ?ckind_eqb_eq; split; intros; try congruence;
-    try (destruct H; congruence); try (inversion H; auto).
-Qed.
-
-Lemma ty_eqb_refl a : ty_eqb a a = true.
-Proof. apply ty_eqb_eq; reflexivity. Qed.
-
 Definition unop_code (o : unop) : N :=
   match o with UNeg => 1 | UPos => 2 | UNot => 3 | UBitNot => 4 end%N.
 
